@@ -304,6 +304,16 @@ pub fn get_jaccard_index_estimate<F: Float + std::fmt::Debug>(
 
 //===========================================================================================
 
+#[cfg(probminhash_verif)]
+impl<F: Float + SampleUniform + std::fmt::Debug, T: Hash, H: Hasher + Default>
+    SuperMinHash<F, T, H>
+{
+    /// verification hook : read-only copy of (histogram b, a_upper, item_rank)
+    pub fn verif_state(&self) -> (Vec<i64>, usize, usize) {
+        (self.b.clone(), self.a_upper, self.item_rank)
+    }
+}
+
 #[cfg(test)]
 mod tests {
     use super::*;
